@@ -39,12 +39,20 @@ STREAMS = {
 
 P = "OpfVerif.Props."
 PROPS = {
-    "C01": {"modules": [P + "C01", P + "C01Exec"], "streams": ["heap", "fit"]},
-    "C02": {"modules": [P + "C02", P + "C02Exec"], "streams": ["heap", "prim", "fit"]},
-    "C03": {"modules": [P + "C03"], "streams": ["fit", "semi"]},
+    # fit line segments: 0 proto, 1 cost, 2 pred, 3 assigned label, 4 true label, 5 order, 6 drained, 7 predictions, 8 relevant
+    "C01": {"modules": [P + "C01", P + "C01Exec"], "streams": ["fit"],
+            "relevant": {"fit": [1, 2, 3, 5, 6], "lawfit": None}},
+    "C02": {"modules": [P + "C02", P + "C02Exec"], "streams": ["prim", "fit"],
+            "relevant": {"prim": None, "fit": [0]}},
+    "C03": {"modules": [P + "C03"], "streams": ["fit", "semi"], "relevant": {"predict": [0]}},
+    "C04": {"modules": [P + "C04", P + "C13"], "streams": ["fit", "cluster", "select"],
+            "relevant": {"fit": [3], "cluster": [4]}},
     "C05": {"modules": [P + "C05"], "streams": ["heap"]},
     "C06": {"modules": [P + "C06", P + "C06b"], "streams": ["dist"]},
-    "C07": {"modules": [P + "C07"], "streams": ["dist", "fit", "select"]},
+    "C07": {"modules": [P + "C07"], "streams": ["dist", "fit", "select"], "relevant": {"dist": None}},
+    "C12": {"modules": [P + "C12Arcs", P + "C12Pdf"], "streams": ["knn"]},
+    "C13": {"modules": [P + "C13"], "streams": ["cluster"]},
+    "C14": {"modules": [P + "C14", P + "C12Pdf"], "streams": ["knnpred"]},
     "C08": {"modules": [P + "C08", P + "C08Symm", P + "C08Self", P + "C08Metric", P + "C08Nonneg"], "streams": ["dist"]},
 }
 
@@ -81,10 +89,27 @@ def _known(pid, what, known):
     return None
 
 
+def _relevant(cfg, disag):
+    """keep the disagreements that bear on this property: cfg["relevant"] maps a line kind to the list of
+    observation segments (positions between ' | ') the property's theorems speak about (None = all);
+    line kinds not mentioned are irrelevant. Without cfg["relevant"] everything counts."""
+    rel = cfg.get("relevant")
+    if rel is None:
+        return disag
+    out = []
+    for d in disag:
+        k = d.get("kind")
+        if k not in rel:
+            continue
+        if rel[k] is None or any(sg in rel[k] for sg in d.get("segments", [])):
+            out.append(d)
+    return out
+
+
 def decide(pid, cfg, tier, seed, lean, results, known, t0):
     os.makedirs(os.path.join(VERIF, "evidence"), exist_ok=True)
     viols = [v for r in results for v in r.violations if v["property"] == pid]
-    disag = [d for r in results for d in r.disagreements]
+    disag = _relevant(cfg, [d for r in results for d in r.disagreements])
     lean_broken = (not lean["build_ok"]) or bool(lean["failed"])
     searched_rounds = 0
     if not viols and (disag or lean_broken):
